@@ -129,14 +129,17 @@ UNITS = [
 # C09: agreement between generated SDKs is a statement about programs in four languages; what this sandbox can run
 # without third-party libraries is the Java SDK's types / verification / constants / stringification (javac, java)
 UNITS.append(Native(
-    "generated Java and C++ SDKs against the generated Python SDK: verdicts, constants, enumeration texts", ["C09"],
+    "generated Java and C++ SDKs against the generated Python SDK: verdicts, constants, enumeration texts, traversal",
+    ["C09", "C26"],
     "native.c09:bounded", kind="examples",
     bound="one meta-model (enumeration with a quoted literal; Formula with 18 invariants; Item with length / pattern / "
           "optional-guarded / enumeration invariants; Carton with a list of items and an optional formula; str / int "
           "(> 2^32) / bool constants) through the Python, Java and C++ targets; 72 formulas + 10 items + 5 cartons = 87 "
           "instances built in all three SDKs (javac / g++ -std=c++17, generated sources without third-party "
           "libraries); (path, description) sets of the verification must be equal (message prefix and leading dot of "
-          "the path normalised); constants and literal texts equal.  JSON, XML and TypeScript not covered",
+          "the path normalised); constants and literal texts equal; descend / descend_once of 4 nested cartons (depth "
+          "<= 4, empty lists) yield the same instances in the same order -- the C++ side runs the generated iterator "
+          "state machines (C26).  JSON, XML and TypeScript not covered",
     args={}, timeout_s=1200))
 
 # C08, both layouts of one emitted loop (the layout depends on the length of the generated line)
